@@ -65,7 +65,7 @@ def checkMerkle (ht : ByteArray) (t : TableStats) (kvs : List (ByteArray × Byte
     for (i, n) in l ++ r do
       if pg.node ht i != n then
         throw s!"merkle: node {i} of page {pg.pageId} (bucket {pg.bucket}) is {hexOfBytes (pg.node ht i)}, specified {hexOfBytes n}"
-    -- elided-children bitfield: set exactly for the child pages that exist but are not stored
+    -- elided-children bitfield: for every child page that exists, set iff that page is not stored
     if pg.pageId != [] then
       for c in [0:64] do
         let sc := s.filter (fun kv => (kv.1.drop d).take 6 == sextetBits c)
@@ -76,6 +76,9 @@ def checkMerkle (ht : ByteArray) (t : TableStats) (kvs : List (ByteArray × Byte
             throw s!"merkle: page {pg.pageId}: child {c} exists ({sc.length} leaves), stored={childStored}, elided bit={bit}"
         else if childStored then
           throw s!"merkle: page {pg.pageId}: child {c} is stored but not needed"
+        -- (a set bit for a child page that does not exist is tolerated: the real code leaves the bit
+        --  stale when the child's subtree shrinks to a leaf/terminator; the bit is only consulted
+        --  when the bottom node is internal)
   for p in requiredPages 43 [] all do
     if !(stored.contains p) then throw s!"merkle: page {p} must be stored (root / child of root / ≥ {PAGE_ELISION_THRESHOLD} leaves) but is not in the hash table"
   pure t.pages.size
